@@ -1160,7 +1160,8 @@ def run(ctx):
                 'sessions of 4 calls with any rebuild / in-place write between them; a memo keyed by the pair of classes is refuted. '
                 'WIDE (MC_EqWide): containers of 3 / 10 (thorough 2 .. 13, 20) structurally identical members - records of one / two keys, '
                 'records holding lists / records, lists, arrays, Series, NaN-holding records, dict subclasses, scalars - in every container '
-                'kind (list, tuple, dict, Dict, object array, object Series, and a list / tuple / dict one level further down), y a copy '
+                'kind (list, tuple, dict, Dict, object array, object Series, a list / tuple / dict one level further down; for integer members also '
+                'the cells of an int64 array / Series / frame, the labels of a Series, the column labels of a frame), y a copy '
                 'with the member at ONE position - every position - replaced by one that differs (cell, key, type) or by another '
                 'realisation of it; the pinned answer is that of the member pair at every width and position, in both argument orders; '
                 'the walk over the members accumulates the law; an address-keyed memo fed with recycled temporaries is refuted. '
@@ -1205,7 +1206,7 @@ def run(ctx):
     # the process has seen any other comparison of the run
     s2c_hist(ctx, ctx.generate('MC_EqHist', 'MC_EqHist_gen3.cfg' if ctx.quick else 'MC_EqHist_gen5.cfg'))
     if not ctx.quick:
-        s2c_hist(ctx, ctx.generate('MC_EqHist', 'MC_EqHist_sim.cfg', simulate=1500, depth=9, seed=ctx.seed + 1, workers=1), tag='sim')
+        s2c_hist(ctx, ctx.generate('MC_EqHist', 'MC_EqHist_sim.cfg', simulate=400, depth=9, seed=ctx.seed + 1, workers=1), tag='sim')
     # (the generator run checks the clauses of MC_EqWide on every case it prints)
     s2c_wide(ctx, ctx.generate('MC_EqWide', 'MC_EqWide_gen.cfg' if ctx.quick else 'MC_EqWide_gent.cfg'), 'wide')
     base = s2c(ctx, ctx.generate('MC_Eq', 'MC_Eq_gen1.cfg' if ctx.quick else 'MC_Eq_gen3.cfg'), 'eq')
